@@ -26,7 +26,7 @@ theorem so3_dr_exp_series_bound (a : Vec ℝ 3) (h0 : 0 < sqNorm a) (h1 : sqNorm
       = (Trig.cos_2 (sqNorm a) - (Real.cos (Real.sqrt (sqNorm a)) - 1) / sqNorm a) * (SO3.hat a) i j
         + -(Trig.sin_3 (sqNorm a) - (Real.sin (Real.sqrt (sqNorm a)) - Real.sqrt (sqNorm a))
             / (sqNorm a * Real.sqrt (sqNorm a))) * (mmul (SO3.hat a) (SO3.hat a)) i j := by
-    simp only [SO3.dr_exp, SO3.calc_S1, memoM_eq, sqNorm3_neg, Mat.of_get, poly2, mmul3, hat_neg,
+    simp only [SO3.dr_exp, SO3.calc_S1, memoM_eq, msmul, sqNorm3_neg, Mat.of_get, poly2, mmul3, hat_neg,
       αr, βr]
     ring
   rw [e]
@@ -53,7 +53,7 @@ theorem se2_dr_exp_series_bound (a : Vec ℝ 3) (h0 : a 2 ≠ 0) (h1 : a 2 * a 2
       = (Trig.cos_2 (a 2 * a 2) - (Real.cos (Real.sqrt (a 2 * a 2)) - 1) / (a 2 * a 2)) * (SE2.ad a) i j
         + -(Trig.sin_3 (a 2 * a 2) - (Real.sin (Real.sqrt (a 2 * a 2)) - Real.sqrt (a 2 * a 2))
             / (a 2 * a 2 * Real.sqrt (a 2 * a 2))) * (mmul (SE2.ad a) (SE2.ad a)) i j := by
-    simp only [SE2.dr_exp, memoM_eq, Mat.of_get, poly2]
+    simp only [SE2.dr_exp, memoM_eq, Lin.mmul_msmul_get, Mat.of_get, poly2]
     ring
   rw [e]
   refine (abs_add_le _ _).trans (add_le_add ?_ ?_)
